@@ -213,6 +213,9 @@ pub mod lang;
 mod tokenizer;
 pub mod word_to_digit;
 
+#[cfg(feature = "verif-hooks")]
+pub mod verif;
+
 pub use lang::{BasicAnnotate, LangInterpreter, Language};
 pub use word_to_digit::{
     find_numbers, find_numbers_iter, replace_numbers_in_stream, replace_numbers_in_text,
